@@ -708,7 +708,7 @@ void run_inplace(Ctx& c, const Options& opt) {
 
 // =============================================================================================
 // C13
-struct C13Schema { std::vector<std::string> defs; };   // definitions of D1..Dk
+struct C13Schema { std::vector<std::string> defs; bool conv{ false }; };   // definitions of D1..Dk; conv: every constituent carries a convention text
 
 std::string product(const std::vector<std::string>& names) { std::string s; for (size_t i = 0; i < names.size(); ++i) s += (i ? "×" : "") + names[i]; return s; }
 
@@ -734,6 +734,7 @@ Spec c13Spec(const C13Schema& sc, int pol) {
     Item it; it.uid = pol == 0 ? static_cast<EntityUID>(101 + i) : static_cast<EntityUID>(200 - i);
     if (i < 2) { it.alias = "X" + std::to_string(i + 1); it.type = CstType::base; it.term = i == 0 ? "a" : "b"; }
     else { it.alias = "D" + std::to_string(i - 1); it.type = CstType::term; it.def = sc.defs[static_cast<size_t>(i - 2)]; it.term = "t" + std::to_string(i - 1); }
+    if (sc.conv) it.conv = "note on " + it.alias;   // a constituent with an empty definition but a convention is still undefined for OpMaxPart
     s.items.push_back(it);
   }
   return s;
@@ -876,14 +877,15 @@ void run_c13(Ctx& c, const Options& opt, int op) {
         {
         std::vector<int> perm(static_cast<size_t>(k)); for (int i = 0; i < k; ++i) perm[static_cast<size_t>(i)] = i;
         do {
-          for (int xs = 0; xs < (xswap ? 2 : 1); ++xs) for (int pol = 0; pol < policies; ++pol) {
+          for (int xs = 0; xs < (xswap ? 2 : 1); ++xs) for (int pol = 0; pol < policies; ++pol) for (int conv = 0; conv < (k <= 2 ? 2 : 1); ++conv) {
             if (!c.take()) continue;
+            sc.conv = conv != 0;
             std::vector<int> order = xs ? std::vector<int>{ 1, 0 } : std::vector<int>{ 0, 1 };
             for (int i = 0; i < k; ++i) order.push_back(2 + perm[static_cast<size_t>(i)]);
             std::string desc = std::string(op == 0 ? "basis" : "maxpart") + " defs=[";
             for (int i = 0; i < k; ++i) desc += (i ? " | " : "") + std::string("D") + std::to_string(i + 1) + ":=" + sc.defs[static_cast<size_t>(i)];
             desc += "] order=["; for (size_t i = 0; i < order.size(); ++i) desc += (i ? "," : "") + (order[i] < 2 ? "X" + std::to_string(order[i] + 1) : "D" + std::to_string(order[i] - 1));
-            desc += "] pol=" + std::to_string(pol);
+            desc += "] pol=" + std::to_string(pol) + (conv ? " conventions" : "");
             c.begin(desc);
             c13_case(c, sc, order, pol, op, desc);
             c.rep.count("schema_orders");
